@@ -193,4 +193,57 @@ func init() {
 		"[strings.ContainsRune(s, '\\'') && strings.ContainsRune(s, '\"') && !(ascii)] ContainsRune(a, 39); ContainsRune(a, 34); zero.WriteRune(39); LOOP(range s){[c < 0x20 && c != '\\t' && c != '\\n' && c != '\\r'] Fprintf(zero, `\\x%02x`, a[*])  | [c < 0x20 && c == '\\n'] zero.WriteString(`\\n`)  | [c < 0x20 && c == '\\r'] zero.WriteString(`\\r`)  | [c < 0x20 && c == '\\t'] zero.WriteString(`\\t`)  | [c >= 0x20 && c < 0x7F && c != '\\\\' && c != '\\''] zero.WriteRune(a[*])  | [c >= 0x20 && c < 0x7F && c == '\\''] zero.WriteRune(92); zero.WriteRune(a[*])  | [c >= 0x20 && c < 0x7F && c == '\\\\'] zero.WriteRune(92); zero.WriteRune(a[*])  | [c >= 0x20 && c >= 0x7F && c < 0x100 && !(strconv.IsPrint(c))] IsPrint(a[*]); Fprintf(zero, \"\\\\x%02x\", a[*])  | [c >= 0x20 && c >= 0x7F && c < 0x100 && strconv.IsPrint(c)] IsPrint(a[*]); zero.WriteRune(a[*])  | [c >= 0x20 && c >= 0x7F && c >= 0x100 && c < 0x10000 && !(strconv.IsPrint(c))] IsPrint(a[*]); Fprintf(zero, \"\\\\u%04x\", a[*])  | [c >= 0x20 && c >= 0x7F && c >= 0x100 && c < 0x10000 && strconv.IsPrint(c)] IsPrint(a[*]); zero.WriteRune(a[*])  | [c >= 0x20 && c >= 0x7F && c >= 0x100 && c >= 0x10000 && !(strconv.IsPrint(c))] IsPrint(a[*]); Fprintf(zero, \"\\\\U%08x\", a[*])  | [c >= 0x20 && c >= 0x7F && c >= 0x100 && c >= 0x10000 && strconv.IsPrint(c)] IsPrint(a[*]); zero.WriteRune(a[*]) }; zero.WriteRune(39); zero.String() -> (*bytes.Buffer).String#0",
 		"[strings.ContainsRune(s, '\\'') && strings.ContainsRune(s, '\"') && ascii] ContainsRune(a, 39); ContainsRune(a, 34); LOOP(range s){[c < 0x20 && c != '\\t' && c != '\\n' && c != '\\r'] Fprintf(zero, `\\x%02x`, a[*])  | [c < 0x20 && c == '\\n'] zero.WriteString(`\\n`)  | [c < 0x20 && c == '\\r'] zero.WriteString(`\\r`)  | [c < 0x20 && c == '\\t'] zero.WriteString(`\\t`)  | [c >= 0x20 && c < 0x100 && c < 0x7F] zero.WriteRune(a[*])  | [c >= 0x20 && c < 0x100 && c >= 0x7F] Fprintf(zero, \"\\\\x%02x\", a[*])  | [c >= 0x20 && c >= 0x100 && c < 0x10000] Fprintf(zero, \"\\\\u%04x\", a[*])  | [c >= 0x20 && c >= 0x100 && c >= 0x10000] Fprintf(zero, \"\\\\U%08x\", a[*]) }; zero.String() -> (*bytes.Buffer).String#0",
 	}
+	// list item and slice assignment: indices from GetIndices/IndexIntCheck; simple slices read the operand first, copy the tail unconditionally, splice; extended slices check the length and store by counting slicelength items [listobject.c list_ass_subscript]  []
+	pathSpec["py|List.M__setitem__"] = []string{
+		"[!(key.(*Slice)) && err != nil] IndexIntCheck(key, len(l.Items)) -> nil, err!",
+		"[!(key.(*Slice)) && err == nil] IndexIntCheck(key, len(l.Items)); l.Items[i] = value -> None, nil",
+		"[key.(*Slice) && err != nil] key.GetIndices(len(l.Items)) -> nil, err!",
+		"[key.(*Slice) && err == nil && step != 1 && len(newItems) != slicelength] key.GetIndices(len(l.Items)); SequenceTuple(value); ExceptionNewf(ValueError, lit, len(py.SequenceTuple#0), ret:slice.GetIndices(len(l.Items))) -> nil, err!",
+		"[key.(*Slice) && err == nil && step != 1 && len(newItems) == slicelength] key.GetIndices(len(l.Items)); SequenceTuple(value); LOOP(for i, j := start, 0; j < slicelength; i, j = i+step, j+1){[]  } -> None, nil",
+		"[key.(*Slice) && err == nil && step != 1] key.GetIndices(len(l.Items)); SequenceTuple(value) -> nil, err!",
+		"[key.(*Slice) && err == nil && step == 1] key.GetIndices(len(l.Items)); SequenceTuple(value) -> nil, err!",
+		"[key.(*Slice) && err == nil && step == 1] key.GetIndices(len(l.Items)); SequenceTuple(value); l.Items = append(l.Items[:start], py.SequenceTuple#0); l.Items = append(l.Items, copy-of[l.Items[stop:]]) -> None, nil",
+	}
+	// list item and slice deletion: simple slices clamp stop to start and splice; extended slices delete slicelength items in ascending order, starting for a negative step from start+step*(slicelength-1) [listobject.c list_ass_subscript]  []
+	pathSpec["py|List.M__delitem__"] = []string{
+		"[!(key.(*Slice)) && err != nil] IndexIntCheck(key, len(a.Items)) -> nil, err!",
+		"[!(key.(*Slice)) && err == nil] IndexIntCheck(key, len(a.Items)); a.DelItem(ret:IndexIntCheck(key, len(a.Items))) -> None, nil",
+		"[key.(*Slice) && err != nil] key.GetIndices(len(a.Items)) -> nil, err!",
+		"[key.(*Slice) && err == nil && step != 1 && step < 0] key.GetIndices(len(a.Items)); LOOP(for j := 0; j < slicelength; j++){[] a.DelItem(start + j * step - j) } -> None, nil",
+		"[key.(*Slice) && err == nil && step != 1 && step >= 0] key.GetIndices(len(a.Items)); LOOP(for j := 0; j < slicelength; j++){[] a.DelItem(start + j * step - j) } -> None, nil",
+		"[key.(*Slice) && err == nil && step == 1] key.GetIndices(len(a.Items)); a.Items = append(a.Items[:start], a.Items[stop:]) -> None, nil",
+	}
+	// in-place set operators adopt the result of the binary operator unconditionally and evaluate to the receiver  []
+	pathSpec["py|Set.inPlace"] = []string{
+		"[err != nil]  -> nil, err!",
+		"[err == nil && !(res.(*Set))]  -> res, nil",
+		"[err == nil && res.(*Set)] s.items = res.items -> s, nil",
+	}
+	// sort comparison: items fetched, key function applied to both, then a strict less-than with the operands exchanged for reverse (not the result inverted, which is not a strict order and breaks stability)  []
+	pathSpec["py|ptrSortable.Less"] = []string{
+		"[err != nil && s.s.firstErr != nil] s.s.l.M__getitem__(i) -> false",
+		"[err != nil && s.s.firstErr == nil] s.s.l.M__getitem__(i); s.s.firstErr = err! -> false",
+		"[err == nil && s.s.firstErr != nil] s.s.l.M__getitem__(i); s.s.l.M__getitem__(j) -> false",
+		"[err == nil && s.s.firstErr == nil] s.s.l.M__getitem__(i); s.s.l.M__getitem__(j); s.s.firstErr = err! -> false",
+		"[err == nil && s.s.keyFunc != None && !(s.s.reverse) && !(cmpResult.(Bool))] s.s.l.M__getitem__(i); s.s.l.M__getitem__(j); Call(s.s.keyFunc, composite[(*py.List).M__getitem__#0], nil); Call(s.s.keyFunc, composite[(*py.List).M__getitem__#0], nil); Lt(py.Call#0, py.Call#0) -> false",
+		"[err == nil && s.s.keyFunc != None && !(s.s.reverse) && cmpResult.(Bool)] s.s.l.M__getitem__(i); s.s.l.M__getitem__(j); Call(s.s.keyFunc, composite[(*py.List).M__getitem__#0], nil); Call(s.s.keyFunc, composite[(*py.List).M__getitem__#0], nil); Lt(py.Call#0, py.Call#0) -> py.Lt#0",
+		"[err == nil && s.s.keyFunc != None && !(s.s.reverse) && s.s.firstErr != nil] s.s.l.M__getitem__(i); s.s.l.M__getitem__(j); Call(s.s.keyFunc, composite[(*py.List).M__getitem__#0], nil); Call(s.s.keyFunc, composite[(*py.List).M__getitem__#0], nil); Lt(py.Call#0, py.Call#0) -> false",
+		"[err == nil && s.s.keyFunc != None && !(s.s.reverse) && s.s.firstErr == nil] s.s.l.M__getitem__(i); s.s.l.M__getitem__(j); Call(s.s.keyFunc, composite[(*py.List).M__getitem__#0], nil); Call(s.s.keyFunc, composite[(*py.List).M__getitem__#0], nil); Lt(py.Call#0, py.Call#0); s.s.firstErr = err! -> false",
+		"[err == nil && s.s.keyFunc != None && s.s.firstErr != nil] s.s.l.M__getitem__(i); s.s.l.M__getitem__(j); Call(s.s.keyFunc, composite[(*py.List).M__getitem__#0], nil) -> false",
+		"[err == nil && s.s.keyFunc != None && s.s.firstErr != nil] s.s.l.M__getitem__(i); s.s.l.M__getitem__(j); Call(s.s.keyFunc, composite[(*py.List).M__getitem__#0], nil); Call(s.s.keyFunc, composite[(*py.List).M__getitem__#0], nil) -> false",
+		"[err == nil && s.s.keyFunc != None && s.s.firstErr == nil] s.s.l.M__getitem__(i); s.s.l.M__getitem__(j); Call(s.s.keyFunc, composite[(*py.List).M__getitem__#0], nil); Call(s.s.keyFunc, composite[(*py.List).M__getitem__#0], nil); s.s.firstErr = err! -> false",
+		"[err == nil && s.s.keyFunc != None && s.s.firstErr == nil] s.s.l.M__getitem__(i); s.s.l.M__getitem__(j); Call(s.s.keyFunc, composite[(*py.List).M__getitem__#0], nil); s.s.firstErr = err! -> false",
+		"[err == nil && s.s.keyFunc != None && s.s.reverse && !(cmpResult.(Bool))] s.s.l.M__getitem__(i); s.s.l.M__getitem__(j); Call(s.s.keyFunc, composite[(*py.List).M__getitem__#0], nil); Call(s.s.keyFunc, composite[(*py.List).M__getitem__#0], nil); Lt(py.Call#0, py.Call#0) -> false",
+		"[err == nil && s.s.keyFunc != None && s.s.reverse && cmpResult.(Bool)] s.s.l.M__getitem__(i); s.s.l.M__getitem__(j); Call(s.s.keyFunc, composite[(*py.List).M__getitem__#0], nil); Call(s.s.keyFunc, composite[(*py.List).M__getitem__#0], nil); Lt(py.Call#0, py.Call#0) -> py.Lt#0",
+		"[err == nil && s.s.keyFunc != None && s.s.reverse && s.s.firstErr != nil] s.s.l.M__getitem__(i); s.s.l.M__getitem__(j); Call(s.s.keyFunc, composite[(*py.List).M__getitem__#0], nil); Call(s.s.keyFunc, composite[(*py.List).M__getitem__#0], nil); Lt(py.Call#0, py.Call#0) -> false",
+		"[err == nil && s.s.keyFunc != None && s.s.reverse && s.s.firstErr == nil] s.s.l.M__getitem__(i); s.s.l.M__getitem__(j); Call(s.s.keyFunc, composite[(*py.List).M__getitem__#0], nil); Call(s.s.keyFunc, composite[(*py.List).M__getitem__#0], nil); Lt(py.Call#0, py.Call#0); s.s.firstErr = err! -> false",
+		"[err == nil && s.s.keyFunc == None && !(s.s.reverse) && !(cmpResult.(Bool))] s.s.l.M__getitem__(i); s.s.l.M__getitem__(j); Lt((*py.List).M__getitem__#0, (*py.List).M__getitem__#0) -> false",
+		"[err == nil && s.s.keyFunc == None && !(s.s.reverse) && cmpResult.(Bool)] s.s.l.M__getitem__(i); s.s.l.M__getitem__(j); Lt((*py.List).M__getitem__#0, (*py.List).M__getitem__#0) -> py.Lt#0",
+		"[err == nil && s.s.keyFunc == None && !(s.s.reverse) && s.s.firstErr != nil] s.s.l.M__getitem__(i); s.s.l.M__getitem__(j); Lt((*py.List).M__getitem__#0, (*py.List).M__getitem__#0) -> false",
+		"[err == nil && s.s.keyFunc == None && !(s.s.reverse) && s.s.firstErr == nil] s.s.l.M__getitem__(i); s.s.l.M__getitem__(j); Lt((*py.List).M__getitem__#0, (*py.List).M__getitem__#0); s.s.firstErr = err! -> false",
+		"[err == nil && s.s.keyFunc == None && s.s.reverse && !(cmpResult.(Bool))] s.s.l.M__getitem__(i); s.s.l.M__getitem__(j); Lt((*py.List).M__getitem__#0, (*py.List).M__getitem__#0) -> false",
+		"[err == nil && s.s.keyFunc == None && s.s.reverse && cmpResult.(Bool)] s.s.l.M__getitem__(i); s.s.l.M__getitem__(j); Lt((*py.List).M__getitem__#0, (*py.List).M__getitem__#0) -> py.Lt#0",
+		"[err == nil && s.s.keyFunc == None && s.s.reverse && s.s.firstErr != nil] s.s.l.M__getitem__(i); s.s.l.M__getitem__(j); Lt((*py.List).M__getitem__#0, (*py.List).M__getitem__#0) -> false",
+		"[err == nil && s.s.keyFunc == None && s.s.reverse && s.s.firstErr == nil] s.s.l.M__getitem__(i); s.s.l.M__getitem__(j); Lt((*py.List).M__getitem__#0, (*py.List).M__getitem__#0); s.s.firstErr = err! -> false",
+	}
 }
